@@ -10,7 +10,7 @@
    transports every theorem of Proofs/InterpP.v to the generated definitions. *)
 From Coq Require Import ZArith QArith Qabs List Bool Lia ZifyBool.
 From Pandora Require Import Lib.FloatQ Model.CrossCheck Model.Interp Model.InterpPrims Model.InterpGen
-     Spec.CrossCheck Spec.Interp Proofs.InterpP Gen.ValConst.
+     Spec.CrossCheck Spec.Interp Proofs.CrossCheckP Proofs.InterpP Gen.ValConst.
 From Pandora Require Gen.InterpKernels.
 Import ListNotations.
 Open Scope Z_scope.
@@ -456,3 +456,158 @@ Section Pixel3.
     destruct (all_nan (find_valid_neighbors ncol nrow disp valid row col)); reflexivity.
   Qed.
 End Pixel3.
+
+(* find_valid_neighbors as the two sgm kernels call it: with their own direction table *)
+Lemma gen_fvn_eq' : forall ncol nrow disp valid col row, 0 <= col < ncol -> 0 <= row < nrow ->
+  G.occ_sgm_pixel_dirs = dirs8 /\ G.mis_sgm_pixel_dirs = dirs8 /\
+  G.find_valid_neighbors dirs8 ncol nrow disp valid row col = find_valid_neighbors ncol nrow disp valid row col.
+Proof. intros. split; [reflexivity|]. split; [reflexivity|]. apply gen_fvn_eq. Qed.
+
+(* ---------------------------------------------------------------- kernels and methods *)
+
+(* the model's pixel function of a kernel (the tree under test) *)
+Definition mpixel (k : kname) (n0 n1 : Z) (disp : Z -> Z -> option Q) (valid : Z -> Z -> Z) : Z -> Z -> option Q * Z :=
+  match k with
+  | KOccMc => occ_mc_pixel true n1 disp valid
+  | KMisMc => mis_mc_pixel true n0 n1 disp valid
+  | KOccSgm => occ_sgm_pixel true n0 n1 disp valid
+  | KMisSgm => mis_sgm_pixel true n0 n1 disp valid
+  end.
+
+Theorem gen_pixel_eq : forall k n0 n1 disp valid col row, 0 <= col < n0 -> 0 <= row < n1 ->
+  gpixel k n0 n1 disp valid col row = mpixel k n0 n1 disp valid col row.
+Proof.
+  intros k n0 n1 disp valid col row Hc Hr. destruct k; cbn [gpixel mpixel].
+  - apply gen_occ_mc_eq; assumption.
+  - apply gen_mis_mc_eq; assumption.
+  - apply gen_occ_sgm_eq; assumption.
+  - apply gen_mis_sgm_eq; assumption.
+Qed.
+
+(* a generated pixel body leaves a pixel without bit 8 / bit 9 exactly as it is *)
+Theorem gen_pixel_unflagged : forall k n0 n1 disp valid col row, 0 <= col < n0 -> 0 <= row < n1 ->
+  flagged (valid col row) = false ->
+  gpixel k n0 n1 disp valid col row = (disp col row, valid col row).
+Proof.
+  intros k n0 n1 disp valid col row Hc Hr Hf. rewrite gen_pixel_eq by assumption.
+  apply flagged_false in Hf. destruct Hf as [H8 H9].
+  rewrite <- has_occ in H8. rewrite <- has_mis in H9.
+  destruct k; cbn [mpixel]; unfold occ_mc_pixel, mis_mc_pixel, occ_sgm_pixel, mis_sgm_pixel; cbv zeta;
+    rewrite ?H8, ?H9; reflexivity.
+Qed.
+
+Lemma freeze_ext : forall {A} (d : A) n0 n1 (f g : Z -> Z -> A),
+  (forall i j, 0 <= i < n0 -> 0 <= j < n1 -> f i j = g i j) -> freeze d n0 n1 f = freeze d n0 n1 g.
+Proof.
+  intros A d n0 n1 f g H. unfold freeze. cbv zeta.
+  replace (map (fun i => map (fun j => f i j) (zrange 0 n1)) (zrange 0 n0))
+    with (map (fun i => map (fun j => g i j) (zrange 0 n1)) (zrange 0 n0)); [reflexivity|].
+  apply map_ext_in. intros i Hi. apply In_zrange in Hi.
+  apply map_ext_in. intros j Hj. apply In_zrange in Hj. symmetry. apply H; lia.
+Qed.
+
+Lemma grun_kernel_eq : forall k n0 n1 dv,
+  grun_kernel n0 n1 dv k
+  = (kernel_disp n0 n1 (mpixel k n0 n1 (fst dv) (snd dv)), kernel_val n0 n1 (mpixel k n0 n1 (fst dv) (snd dv))).
+Proof.
+  intros k n0 n1 dv. unfold grun_kernel, kernel_disp, kernel_val. cbv zeta. f_equal.
+  - apply freeze_ext. intros i j Hi Hj. rewrite gen_pixel_eq by assumption. reflexivity.
+  - apply freeze_ext. intros i j Hi Hj. rewrite gen_pixel_eq by assumption. reflexivity.
+Qed.
+
+(* the call plans regenerated from the two interpolated_disparity methods are the ones [interp] models *)
+Theorem gen_plans : G.mc_cnn_plan = ([KOccMc; KMisMc], true) /\ G.sgm_plan = ([KMisSgm; KOccSgm], false).
+Proof. split; reflexivity. Qed.
+
+(* the method built from the generated plan and pixel bodies IS the model of the tree under test *)
+Theorem ginterp_eq : forall m n0 n1 off disp valid, ginterp m n0 n1 off disp valid = interp m n0 n1 off disp valid.
+Proof.
+  intros m n0 n1 off disp valid. destruct gen_plans as [P1 P2].
+  unfold ginterp, gplan. destruct m; [rewrite P1 | rewrite P2]; cbn [fold_left fst snd andb];
+    rewrite !grun_kernel_eq; reflexivity.
+Qed.
+
+(* ---------------------------------------------------------------- the theorems of Proofs/InterpP.v, on the
+   generated definitions *)
+
+Theorem gen_mc_meets_spec : forall nr nc off disp mask,
+  mc_cnn_spec nr nc off disp mask (fst (ginterp McCnn nr nc off disp mask)) (snd (ginterp McCnn nr nc off disp mask)).
+Proof. intros. rewrite ginterp_eq. apply interp_mc_meets_spec. Qed.
+
+Theorem gen_sgm_meets_spec : forall nr nc off disp mask, never_both nr nc mask ->
+  sgm_spec nr nc disp mask (fst (ginterp Sgm nr nc off disp mask)) (snd (ginterp Sgm nr nc off disp mask)).
+Proof. intros. rewrite ginterp_eq. apply interp_sgm_meets_spec. assumption. Qed.
+
+Section Gen.
+  Variable m : method.
+  Variables nr nc off : Z.
+  Variable disp : Z -> Z -> option Q.
+  Variable mask : Z -> Z -> Z.
+  Hypothesis NB : never_both nr nc mask.
+
+  Local Notation disp' := (fst (ginterp m nr nc off disp mask)).
+  Local Notation mask' := (snd (ginterp m nr nc off disp mask)).
+
+  Theorem gen_only_flagged_change : forall r c, 0 <= r < nr -> 0 <= c < nc ->
+    flagged (mask r c) = false ->
+    disp' r c = disp r c /\ mask' r c = if remarked_by m nr nc off r c then 1 else mask r c.
+  Proof. rewrite ginterp_eq. exact (interp_only_flagged_change m nr nc off disp mask NB). Qed.
+
+  Theorem gen_flag_swap : forall r c, 0 <= r < nr -> 0 <= c < nc -> remarked_by m nr nc off r c = false ->
+    (Z.testbit (mask r c) 8 = true ->
+       (mask' r c = mask r c /\ disp' r c = disp r c) \/ swapped 8 4 (mask r c) (mask' r c)) /\
+    (Z.testbit (mask r c) 9 = true ->
+       (mask' r c = mask r c /\ disp' r c = disp r c) \/ swapped 9 5 (mask r c) (mask' r c) \/
+       (m = Sgm /\ swapped 9 8 (mask r c) (mask' r c) /\ disp' r c = disp r c) \/
+       (m = Sgm /\ swapped 9 4 (mask r c) (mask' r c))).
+  Proof. rewrite ginterp_eq. exact (interp_flag_swap m nr nc off disp mask NB). Qed.
+
+  Theorem gen_other_bits : forall r c, 0 <= r < nr -> 0 <= c < nc ->
+    remarked_by m nr nc off r c = false ->
+    forall n, 0 <= n -> n <> 4 -> n <> 5 -> n <> 8 -> n <> 9 ->
+      Z.testbit (mask' r c) n = Z.testbit (mask r c) n.
+  Proof. rewrite ginterp_eq. exact (interp_other_bits m nr nc off disp mask NB). Qed.
+
+  Theorem gen_filled_or_stays : forall r c, 0 <= r < nr -> 0 <= c < nc ->
+    remarked_by m nr nc off r c = false -> flagged (mask r c) = true ->
+    filled (mask r c) (mask' r c) \/ (flagged (mask' r c) = true /\ disp' r c = disp r c).
+  Proof. rewrite ginterp_eq. exact (interp_filled_or_stays m nr nc off disp mask NB). Qed.
+
+  Theorem gen_filled_range : forall lo hi, valid_range nr nc disp mask lo hi ->
+    forall r c, 0 <= r < nr -> 0 <= c < nc -> remarked_by m nr nc off r c = false ->
+    filled (mask r c) (mask' r c) -> exists q, disp' r c = Some q /\ (lo <= q <= hi)%Q.
+  Proof. rewrite ginterp_eq. exact (interp_filled_range m nr nc off disp mask NB). Qed.
+
+  Theorem gen_filled_needs_valid : forall r c, 0 <= r < nr -> 0 <= c < nc ->
+    remarked_by m nr nc off r c = false -> filled (mask r c) (mask' r c) ->
+    exists r' c', 0 <= r' < nr /\ 0 <= c' < nc /\ spec_valid (mask r' c') = true.
+  Proof. rewrite ginterp_eq. exact (interp_filled_needs_valid m nr nc off disp mask NB). Qed.
+
+  Theorem gen_nothing_in_sight : forall r c, 0 <= r < nr -> 0 <= c < nc ->
+    remarked_by m nr nc off r c = false ->
+    match m with
+    | McCnn => nothing_in_sight halfstep dirs16_rc nr nc mask r c
+    | Sgm => nothing_in_sight straight dirs8_rc nr nc mask r c
+    end ->
+    disp' r c = disp r c /\ mask' r c = mask r c.
+  Proof. rewrite ginterp_eq. exact (interp_nothing_in_sight m nr nc off disp mask NB). Qed.
+
+  Theorem gen_no_valid_pixel :
+    (forall r c, 0 <= r < nr -> 0 <= c < nc -> spec_valid (mask r c) = false) ->
+    forall r c, 0 <= r < nr -> 0 <= c < nc ->
+      disp' r c = disp r c /\
+      (remarked_by m nr nc off r c = false -> flagged (mask r c) = true -> flagged (mask' r c) = true).
+  Proof. rewrite ginterp_eq. exact (interp_no_valid_pixel m nr nc off disp mask NB). Qed.
+
+  Theorem gen_border_bit0 : forall r c, 0 <= r < nr -> 0 <= c < nc ->
+    (m = McCnn -> 0 < off -> is_border nr nc off r c = true -> mask' r c = 1) /\
+    (mask r c = 1 -> mask' r c = 1).
+  Proof. rewrite ginterp_eq. exact (interp_border_bit0 m nr nc off disp mask NB). Qed.
+
+  Theorem gen_no_wrap : forall r c, 0 <= r < nr -> 0 <= c < nc ->
+    0 <= mask r c < 65536 -> 0 <= mask' r c < 65536.
+  Proof. rewrite ginterp_eq. exact (interp_no_wrap m nr nc off disp mask NB). Qed.
+
+  Theorem gen_never_both : never_both nr nc mask'.
+  Proof. rewrite ginterp_eq. exact (interp_never_both m nr nc off disp mask NB). Qed.
+End Gen.
